@@ -203,7 +203,8 @@ def main():
         write_stream(2, beh.get("final_stderr"))
     if "signal" in beh:
         signo = beh["signal"]
-        signal.signal(signo, signal.SIG_DFL)
+        if signo not in (signal.SIGKILL, signal.SIGSTOP):
+            signal.signal(signo, signal.SIG_DFL)
         log({"ev": "end", "test": name, "attempt": attempt, "how": f"raise-{signo}"})
         os.kill(os.getpid(), signo)
         time.sleep(5)
